@@ -115,6 +115,18 @@ struct Scn {
     /// arrival orders: seeds of bank-list permutations (0 = as built)
     order_seeds: Vec<u64>,
     hash_keys: Vec<u64>,
+    /// events assembled on the SAME thread before the event under test (a worker thread of the
+    /// vertex program assembles many events, accepted and rejected ones): state that the
+    /// library keeps between calls must not reach the next event
+    #[serde(default)]
+    pred: Vec<Pred>,
+}
+
+#[derive(Clone, Debug, Serialize, Deserialize, PartialEq)]
+struct Pred {
+    base: BaseEvent,
+    fault: Option<EvFault>,
+    order_seed: u64,
 }
 
 /// Channel-unique signature waveform: sample j of channel id `cid` encodes (cid, j).
@@ -618,6 +630,8 @@ pub fn all_faults(r: &mut Rng) -> Vec<EvFault> {
     ]
 }
 
+const N_HISTORY_QUICK: u64 = 500;
+const N_HISTORY_THOROUGH: u64 = 20_000;
 const RUNS: [u32; 15] = [u32::MAX, 11084, 11192, 12000, 10418, 10417, 9277, 9276, 7026, 7000, 6999, 4418, 2941, 2940, 0];
 
 pub enum Got {
@@ -726,12 +740,42 @@ impl Check for C10Check {
     }
     fn count(&self, tier: Tier) -> u64 {
         match tier {
-            Tier::Quick => 46 * 33 + 172,
-            Tier::Thorough => 2000 * 33 + 6000,
+            Tier::Quick => 46 * 33 + 172 + N_HISTORY_QUICK,
+            Tier::Thorough => 2000 * 33 + 6000 + N_HISTORY_THOROUGH,
         }
     }
     fn generate(&self, seed: u64, index: u64, tier: Tier) -> Value {
         let n_faulted = if tier == Tier::Quick { 46 * 33 } else { 2000 * 33 };
+        let n_consistent = if tier == Tier::Quick { 172 } else { 6000 };
+        if index >= n_faulted + n_consistent {
+            // history scenarios: 1-3 other events (mostly faulted, i.e. rejected somewhere inside
+            // the build) are assembled on the same thread before a consistent event under test
+            let mut r = Rng::new(seed);
+            const CAL_RUNS: [u32; 6] = [u32::MAX, 11084, 11192, 12000, 10418, 9277];
+            let run = *r.pick(&CAL_RUNS);
+            let small_base = |r: &mut Rng, run: u32| BaseEvent {
+                run,
+                seed: r.next_u64(),
+                n_wires: *r.pick(&[1usize, 3, 8, 20]),
+                n_pad_msgs: r.usize(1, 4),
+                long_only: r.chance(1, 3),
+                // few start positions: predecessors and the event under test often share (board, chip) groups
+                pad_start: Some(*r.pick(&[0usize, 0, 2, 100])),
+                suppressed_only: false,
+            };
+            let base = small_base(&mut r, run);
+            let np = r.usize(1, 3);
+            let mut pred = Vec::new();
+            for _ in 0..np {
+                let prun = if r.chance(3, 4) { run } else { *r.pick(&CAL_RUNS) };
+                let pbase = small_base(&mut r, prun);
+                let faults = all_faults(&mut Rng::new(r.next_u64()));
+                let fault = if r.chance(1, 6) { None } else { Some(faults[r.usize(0, faults.len() - 1)].clone()) };
+                pred.push(Pred { base: pbase, fault, order_seed: match r.below(3) { 0 => 0, 1 => 1, _ => r.next_u64() | 2 } });
+            }
+            let scn = Scn { base, fault: None, order_seeds: vec![0, r.next_u64() | 2], hash_keys: vec![r.next_u64()], pred };
+            return serde_json::to_value(scn).unwrap();
+        }
         if index >= n_faulted {
             // consistent events only, on run numbers that have every map and calibration: the
             // positive half of the statement (right slot, right calibration) over all 256 wires
@@ -759,7 +803,7 @@ impl Check for C10Check {
                 base.n_pad_msgs = 0;
             }
             let mut r = Rng::new(seed);
-            let scn = Scn { base, fault: None, order_seeds: vec![0, r.next_u64() | 2], hash_keys: vec![r.next_u64()] };
+            let scn = Scn { base, fault: None, order_seeds: vec![0, r.next_u64() | 2], hash_keys: vec![r.next_u64()], pred: vec![] };
             return serde_json::to_value(scn).unwrap();
         }
         // base event k = index / 33, fault slot = index % 33 (0 = none)
@@ -784,7 +828,7 @@ impl Check for C10Check {
         };
         let mut r = Rng::new(seed);
         let fault = if slot == 0 { None } else { all_faults(&mut Rng::new(base_seed ^ 0xF)).into_iter().nth(slot - 1) };
-        let scn = Scn { base, fault, order_seeds: vec![0, 1, r.next_u64() | 2], hash_keys: vec![r.next_u64(), r.next_u64()] };
+        let scn = Scn { base, fault, order_seeds: vec![0, 1, r.next_u64() | 2], hash_keys: vec![r.next_u64(), r.next_u64()], pred: vec![] };
         serde_json::to_value(scn).unwrap()
     }
 
@@ -826,6 +870,34 @@ impl Check for C10Check {
         for (n, d) in &encoded {
             log.str(n).bytes(d);
         }
+        // predecessors on the same thread
+        let mut preds: Vec<(u32, Vec<(String, Vec<u8>)>)> = Vec::new();
+        for p in &scn.pred {
+            let mut pe = build_base(&p.base);
+            if let Some(f) = &p.fault {
+                if !apply_fault(&mut pe, f, p.base.run) {
+                    continue;
+                }
+                stats.fault(&format!("predecessor:{}", f.kind()));
+            } else {
+                stats.fault("predecessor:none");
+            }
+            let enc = encode_event(&pe.banks);
+            let mut order: Vec<usize> = (0..enc.len()).collect();
+            match p.order_seed {
+                0 => {}
+                1 => order.reverse(),
+                s => Rng::new(s).shuffle(&mut order),
+            }
+            let banks: Vec<(String, Vec<u8>)> = order.iter().map(|&i| enc[i].clone()).collect();
+            for (n, d) in &banks {
+                log.str(n).bytes(d);
+            }
+            preds.push((p.base.run, banks));
+        }
+        if !preds.is_empty() {
+            stats.probe("event_assembled_after_other_events_on_the_same_thread");
+        }
         let mut viol = Vec::new();
         'outer: for &os in &scn.order_seeds {
             let mut order: Vec<usize> = (0..encoded.len()).collect();
@@ -841,7 +913,14 @@ impl Check for C10Check {
                 hs.u64(os).u64(hk);
                 stats.schedule(hs.finish());
                 let run = scn.base.run;
-                let got = with_hash_key(hk, || build_real(run, &banks));
+                let preds = &preds;
+                let got = with_hash_key(hk, || {
+                    for (prun, pbanks) in preds {
+                        let _ = build_real(*prun, pbanks);
+                    }
+                    build_real(run, &banks)
+                });
+                stats.executions += preds.len() as u64;
                 let narrowed = {
                     let mut s = scn.clone();
                     s.order_seeds = vec![os];
@@ -904,6 +983,18 @@ impl Check for C10Check {
                     s.hash_keys = vec![h];
                     push(s);
                 }
+            }
+        }
+        for i in 0..scn.pred.len() {
+            let mut s = scn.clone();
+            s.pred.remove(i);
+            push(s);
+        }
+        for (i, p) in scn.pred.iter().enumerate() {
+            if p.order_seed != 0 {
+                let mut s = scn.clone();
+                s.pred[i].order_seed = 0;
+                push(s);
             }
         }
         if scn.order_seeds != vec![0] {
